@@ -294,7 +294,7 @@ func (st *interp) stmt(n *Node) ctl {
 			return st.list(n, 1)
 		}
 		return st.raise("exception", "case-not-found")
-	case "while", "repeat", "loop":
+	case "while", "repeat", "loop", "loopb":
 		return st.loop(n)
 	case "blk":
 		return st.block(n)
@@ -332,6 +332,12 @@ func (st *interp) loop(n *Node) ctl {
 	st.out.Steps++
 	// body runs one iteration; returns (leaveLoop, iterate, ctl-to-propagate)
 	body := func() (leave bool, iterated bool, out ctl) {
+		if n.K == "loopb" {
+			// the body is a block with its own v: entered (and left) on every iteration
+			st.out.Steps++
+			st.vstack = append(st.vstack, iv(5))
+			defer func() { st.vstack = st.vstack[:len(st.vstack)-1] }()
+		}
 		st.out.Steps++
 		*i = add(*i, iv(1))
 		switch n.K {
@@ -340,7 +346,7 @@ func (st *interp) loop(n *Node) ctl {
 			if cmpGT(*i, iv(3)) == 1 {
 				return true, false, ctl{}
 			}
-		case "loop":
+		case "loop", "loopb":
 			st.out.Steps++
 			if or3(cmpGT(*i, st.a), cmpGT(*i, iv(3))) == 1 {
 				return true, false, ctl{}
